@@ -25,6 +25,23 @@ def run(ctx, factor):
             mdoc["pattern"] = mdoc["pattern"] + copy.deepcopy(mdoc["pattern"][:1])
             doc = dict(doc)
             doc["pattern"] = doc["pattern"] + copy.deepcopy(doc["pattern"][:1])
+        # a further use of a parameterised macro with a DIFFERENT argument (uses must not share state)
+        allm = [m for f in files for m in f["macros"]] + mdoc.get("macros", [])
+        pm = [m for m in allm if m.get("args") and isinstance(m.get("pattern"), list)]
+        if pm and g.chance(0.5):
+            m = g.pick(pm)
+            formal = m["args"][0]
+            val2 = g.pick(["r9", "%r10", "0x77", "rsi", 5])
+            tmpl = copy.deepcopy(m["pattern"][0])
+            if isinstance(tmpl, dict) and len(tmpl) == 1:
+                key = next(iter(tmpl))
+                if isinstance(tmpl[key], list) and formal in tmpl[key]:
+                    inl = {key: [val2 if x == formal else x for x in tmpl[key]]}
+                    if "@" not in json.dumps(inl):
+                        mdoc["pattern"] = mdoc["pattern"] + [{m["name"]: {formal: val2}}]
+                        doc = dict(doc)
+                        doc["pattern"] = doc["pattern"] + [inl]
+                        forms = forms + ["parameterised-second-use-other-argument"]
         a = impl.compile_rule(ctx.scratch, doc)
         b = impl.compile_rule(ctx.scratch, mdoc, files)
         case = {"rule_with_macros": mdoc, "macro_files": files, "inlined_rule": doc}
